@@ -201,6 +201,10 @@ func VerifC09Table() {
 }
 
 // c09Classes: token classes for the bracket-discipline sweep, each made by the real rule action.
+// c09BinFamily selects which binary operator stands for the class BIN in the current sequence.
+var c09BinSel int
+var c09BinFamilyNames = []string{"+", ":", ",", "|", "//", "=="}
+
 var c09Classes = []string{"VAL", "BIN", "(", ")", "[", "]", "{", "}", "FN1"}
 
 func c09Token(class int) *token {
@@ -210,7 +214,22 @@ func c09Token(class int) *token {
 	case 0:
 		a, raw = numberValue(), "1"
 	case 1:
-		a, raw = opToken(addOpType), "+"
+		// the binary operator of this sequence: one of a family (the token post-processing treats some of them
+		// specially: `:` next to a bracket, `|` and `,` as separators)
+		switch c09BinSel {
+		case 1:
+			a, raw = opToken(createMapOpType), ":"
+		case 2:
+			a, raw = opToken(unionOpType), ","
+		case 3:
+			a, raw = opToken(pipeOpType), "|"
+		case 4:
+			a, raw = opToken(alternativeOpType), "//"
+		case 5:
+			a, raw = opToken(equalsOpType), "=="
+		default:
+			a, raw = opToken(addOpType), "+"
+		}
 	case 2:
 		a, raw = literalToken(openBracket, false), "("
 	case 3:
@@ -332,23 +351,46 @@ func VerifC09Brackets() {
 	n := verifChoice("len", verifParam("maxlen", 4)) + 1
 	cls := make([]int, n)
 	label := ""
-	var toks []*token
+	hasBin := false
 	for i := 0; i < n; i++ {
 		cls[i] = verifChoice("t"+verifItoa(int64(i)), len(c09Classes))
 		label += c09Classes[cls[i]] + " "
+		hasBin = hasBin || cls[i] == 1
+	}
+	c09BinSel = 0
+	opName := ""
+	if hasBin {
+		c09BinSel = verifChoice("binop", len(c09BinFamilyNames))
+		if c09BinSel != 0 {
+			opName = " op=" + c09BinFamilyNames[c09BinSel]
+		}
+	}
+	var toks []*token
+	for i := 0; i < n; i++ {
 		toks = append(toks, c09Token(cls[i]))
 	}
+	c09BinSel = 0
 	tree, err := c09Tree(toks)
 	wf := c09WellFormed(cls)
 	switch wf {
 	case 1:
-		verifAssert(err == nil && tree != nil, "C09/well-formed-rejected")
+		verifAssert(err == nil && tree != nil, "C09/well-formed-rejected"+opName)
 		verifCover("C09/brackets/accepted")
 	case 0:
-		verifAssert(err != nil, "C09/unbalanced-brackets-accepted")
+		verifAssert(err != nil, "C09/unbalanced-brackets-accepted"+opName)
 		verifCover("C09/brackets/rejected")
 	case 3:
-		verifAssert(err != nil, "C09/operator-without-adjacent-operand-accepted")
+		// structural class of the sequence: the recorded defect (postfix / prefix spellings such as `1 1 +`) needs two
+		// operands standing next to each other without an operator between them
+		juxt := "no-juxtaposed-operands"
+		for i := 0; i+1 < n; i++ {
+			endsTerm := cls[i] == 0 || cls[i] == 3 || cls[i] == 5 || cls[i] == 7
+			startsTerm := cls[i+1] == 0 || cls[i+1] == 2 || cls[i+1] == 4 || cls[i+1] == 6 || cls[i+1] == 8
+			if endsTerm && startsTerm {
+				juxt = "juxtaposed-operands"
+			}
+		}
+		verifAssert(err != nil, "C09/operator-without-adjacent-operand-accepted"+opName+" "+juxt+" seq="+label)
 		verifCover("C09/brackets/rejected-operator")
 	}
 	verifCover("C09/brackets/end")
